@@ -21,15 +21,16 @@ type c20Fail struct {
 }
 
 type c20Result struct {
-	loadErr  error
-	trimErr  error
-	skipped  string // why the package was not a usable case ("" = used)
-	before   c20Eval
-	trimmed  c20Pkg
-	removed  []string // keys "file:offset:Type" of topmost removed declarations
-	replaced []string // keys of fields whose value was replaced by `_` / `{}`
-	changed  bool     // trimmed text differs from formatted original
-	fails    []c20Fail
+	loadErr    error
+	trimErr    error
+	skipped    string // why the package was not a usable case ("" = used)
+	before     c20Eval
+	trimmed    c20Pkg
+	removed    []string // keys "file:offset:Type" of topmost removed declarations
+	replaced   []string // keys of fields whose value was replaced by `_` / `{}`
+	changed    bool     // trimmed text differs from formatted original
+	schemaDiff bool     // optional fields / pattern constraints differ although the result is the same
+	fails      []c20Fail
 }
 
 func (r *c20Result) fail(class, what string, args ...any) {
@@ -265,6 +266,8 @@ func c20CheckPkgOpts(p c20Pkg, o c20Opts) *c20Result {
 	// (2) identical fully evaluated result at every path
 	if after.dump != before.dump {
 		res.fail("eval-changed", "evaluated result differs after trim: %s", c20DiffDumps(before.dump, after.dump))
+	} else if after.schema != before.schema {
+		res.schemaDiff = true
 	}
 	// (3) trimming again removes nothing more
 	again, _, lerr2, terr2 := c20TrimPkg(trimmed)
